@@ -2,6 +2,7 @@
 import random
 from ..comp import storage as ST
 from ..comp import storageread as SR
+from ..comp import coarseread as CR
 from ..comp import storeseq as SQ
 
 ID = 'C05'
@@ -19,7 +20,7 @@ THEOREMS = [
     (P, 'EAO.C05.storage_wf', 'the built problem is well-formed (sizes, column indices, mapping variables, names, nodes), incl. the empty window'),
     (P, 'EAO.C05.old_witness_now_rejected', 'the witness of the repaired defect F-05d is infeasible for the repaired rows'),
 ]
-THEOREMS = THEOREMS + SR.THEOREMS_C05_READOUT
+THEOREMS = THEOREMS + SR.THEOREMS_C05_READOUT + CR.THEOREMS_C05_COARSE
 PARTIAL = ['level theorems assume 0 <= end_level <= size, which the constructor does not check (end_level > size is accepted by the code and feasible with the last level above size)']
 COMPONENTS = ['storage object re-used over several horizons / split intervals (oracle only)', 'storage builder vs Storage.setup_optim_problem (cost, bounds, rows in order, mapping)', 'storage read-out (fill level, charge, discharge) vs Storage.fill_level / io.extract_output', 'block start positions for tick block sizes vs pandas']
 RULE = ('storages over (size, rates, efficiency, start/end level, inflow, three costs, price, 1|2 nodes, windows, blocks, both MIP options, grids with unequal steps (DST), several units; number FORMS: every numeric parameter whose value is whole is handed to the constructor as Python int / np.int64 / np.int32 / float / np.float64 and whole-valued price series as int64 / int32 / float64 arrays (market series also as lists of ints), drawn per parameter from the seed while model and oracle keep the exact values; focus stream with whole size / start level next to a fractional end level and vice versa, whole rates, costs, inflow, holding limit, mostly without inflow and blocks), each embedded in a small portfolio with a market per node and optimised; '
